@@ -1843,16 +1843,16 @@ class ClearDynamicallyDefinedDataIdentifierRequest(
     def pdu(self) -> bytes:
         if self.dynamically_defined_data_identifier is None:
             return pack(
+                "!BB",
+                self.SERVICE_ID,
+                self.sub_function_with_suppress_response_bit,
+            )
+        else:
+            return pack(
                 "!BBH",
                 self.SERVICE_ID,
                 self.sub_function_with_suppress_response_bit,
                 self.dynamically_defined_data_identifier,
-            )
-        else:
-            return pack(
-                "!BB",
-                self.SERVICE_ID,
-                self.sub_function_with_suppress_response_bit,
             )
 
     @classmethod
@@ -1862,7 +1862,7 @@ class ClearDynamicallyDefinedDataIdentifierRequest(
         if len(pdu) > 2:
             dynamically_defined_data_identifier = from_bytes(pdu[2:])
 
-        return cls(dynamically_defined_data_identifier)
+        return cls(dynamically_defined_data_identifier, cls.suppress_response_set(pdu))
 
 
 class DynamicallyDefineDataIdentifier(
